@@ -281,6 +281,37 @@ SENTINEL = (3, [([439, 508, 418], [4390, 5080, 4180], [-2195, -2540, -2090], [[-
               [1908, 2326, -615], [53, -2485, 1761], [108, 1307, 110], [-305, 1791, 1238]])])
 
 
+def related_frames(rng, d, frames):
+    """frames 2.. take their box from frame 1: kind 0 the edge lengths permuted (same volume, other shape), kind 1 (2-D)
+    L x L -> (L p / q) x (L q / p) (same volume), kind 2 the same lengths at a shifted origin, kind 3 the same box."""
+    out = [frames[0]]
+    Lq0, Lm0, lo0, _ = frames[0]
+    for j in range(1, len(frames)):
+        n = len(frames[j][3])
+        kind = rng.choice([0, 0, 1, 2, 3])
+        Lq, Lm, lo = list(Lq0), list(Lm0), list(lo0)
+        if kind == 0:
+            perm = list(range(d))
+            while perm == list(range(d)) and len(set(Lq0)) > 1:
+                rng.shuffle(perm)
+            Lq, Lm = [Lq0[k] for k in perm], [Lm0[k] for k in perm]
+        elif kind == 1 and d == 2:
+            p_, q_ = rng.choice([(3, 4), (4, 3), (2, 3), (1, 2)])
+            a = (Lq0[0] // (p_ * q_)) * p_ * q_
+            if a >= 2000:
+                if out[0][0] != [a, a] and j == 1:       # frame 1 becomes the a x a square box
+                    n0 = len(frames[0][3])
+                    out[0] = ([a, a], [a, a], list(lo0), [[lo0[k] + rng.randint(0, a - 1) for k in range(2)] for _ in range(n0)])
+                    Lq0, Lm0 = [a, a], [a, a]
+                Lq = [a * p_ // q_, a * q_ // p_]
+                Lm = list(Lq)
+        elif kind == 2:
+            lo = [x + rng.randint(-3000, 3000) for x in lo0]
+        pos = [[lo[k] + rng.randint(0, Lm[k] - 1) for k in range(d)] for _ in range(n)]
+        out.append((Lq, Lm, lo, pos))
+    return out
+
+
 def make_snap(lib, Lm, lo, pos, ts):
     L = np.array(Lm, dtype=float) / 1000
     lo_ = np.array(lo, dtype=float) / 1000
@@ -317,6 +348,10 @@ def gen_session(lib, rng, tmp, k, fixed=None):
     okind = rng.choice([0, 1, 1, 2, 3])
     frames = [gen_config(rng, d, n0 if same else rng.randint(2, 30), okind if rng.random() < 0.8 else rng.randint(0, 3))
               for _ in range(nfr)]
+    # histories: consecutive frames that share an attribute of the box while the box itself differs (a deformation at
+    # constant volume: edge lengths permuted, or a x a -> (a p / q) x (a q / p); the same box at another origin; the very same box)
+    if nfr > 1 and rng.random() < 0.6:
+        frames = related_frames(rng, d, frames)
     dumped = rng.random() < 0.4
     if fixed is not None:
         d, frames = fixed
@@ -340,6 +375,21 @@ def gen_session(lib, rng, tmp, k, fixed=None):
     recs.append({"op": "files", "d": d, "fs": fs, "tolerate": 0})
     ctx.append(base)
     extra = []
+    # ---- frame locality: the one-frame trajectory holding frame f gives the lines of frame f
+    if nfr > 1:
+        for f in range(nfr):
+            one = lib.Snapshots(nsnapshots=1, snapshots=[snaps.snapshots[f]])
+            out1 = os.path.join(tmp, f"s{k}_one{f}")
+            info = dict(base, call=f"cal_neighbors on the one-frame trajectory holding frame {f}")
+            try:
+                lib.cal_neighbors(one, out1)
+                fs1 = {"N": [fs["N"][f]], "L": [fs["L"][f]], "nb": parse_file(out1 + ".neighbor.dat", "nb"),
+                       "w": parse_file(out1 + f".{wname}.dat", "w"), "ov": parse_file(out1 + ".overall.dat", "ov")}
+            except Exception as e:
+                extra.append((f"raises:{type(e).__name__}", dict(info, error=str(e)[:200]), None))
+                continue
+            recs.append({"op": "files_ref", "k": f, "fs": fs1})
+            ctx.append(info)
     # ---- hand-off to read_neighbors: two handles, frames in order, random Nmax
     hs = {"nb": Handle(paths["nb"]), "w": Handle(paths["w"])}
     try:
@@ -464,7 +514,9 @@ def corrupt_selftest(chk, goods, reads):
             {"op": "vm_ref", "k": 0, "tr": 0, "loc": 1, "obs": synth(1, 5000)},
             {"op": "vm", "k": 0, "tr": 0, "loc": 1, "obs": synth(1, 5000)},
             {"op": "vm_ref", "k": 1, "tr": 0, "loc": 1, "obs": synth(2, 7000)},
-            {"op": "vm", "k": 1, "tr": 0, "loc": 1, "obs": synth(2, 7000)}]
+            {"op": "vm", "k": 1, "tr": 0, "loc": 1, "obs": synth(2, 7000)},
+            {"op": "files_ref", "k": 1, "fs": {"N": [4], "L": [fs["L"][1]], "nb": fs["nb"][5:10], "w": fs["w"][5:10],
+                                               "ov": [fs["ov"][0]] + fs["ov"][5:9]}}]
 
     def variant(name):
         t = json.loads(json.dumps(base))
@@ -487,9 +539,16 @@ def corrupt_selftest(chk, goods, reads):
             t[3]["obs"][0][6] += 9000       # particle 1 responds to particle 4, not a listed neighbour
             t[3]["obs"][0][0] -= 9000
             return t, 3, "RequestedFrame:LocalSupport"
+        if name == "local":                 # the one-frame run lists another neighbour for particle 1
+            ids = t[7]["fs"]["nb"][1]["t"]
+            ids[2] = next(x for x in (1, 2, 3, 4) if x != ids[2])
+            return t, 7, "FrameLocal"
+        if name == "localweight":
+            t[7]["fs"]["w"][2]["t"][2] += 2
+            return t, 7, "FrameLocal"
         return t, None, None
 
-    names = ["intact", "cursor", "matrix", "symmetry", "rowsum", "frame", "support"]
+    names = ["intact", "cursor", "matrix", "symmetry", "rowsum", "frame", "support", "local", "localweight"]
     import concurrent.futures as cf
     with cf.ThreadPoolExecutor(max_workers=4) as ex:
         outs = list(ex.map(lambda n: (n, variant(n), validate_trace("TraceVoronoiOut", variant(n)[0])), names))
